@@ -61,6 +61,7 @@ type FuncContract struct {
 	NoReturn bool // callee never returns (PanicSanity...)
 	NoAlloc  bool // callee returns no freshly allocated object (allocation clock not advanced at call sites)
 	NoSafety bool
+	Wraparound bool // signed arithmetic of this function wraps (two's complement) instead of being mathematical
 	Inline   bool
 	Lets     []LetDef
 	File     string
@@ -546,6 +547,8 @@ func (cs *Contracts) LoadContractFile(file, pkgPath string) error {
 			cur.NoAlloc = true
 		case "nosafety":
 			cur.NoSafety = true
+		case "wraparound":
+			cur.Wraparound = true
 		case "inline":
 			cur.Inline = true
 		case "spec", "define", "pred":
